@@ -15,6 +15,10 @@ from .vals import (
 )
 
 
+_CARRIED: dict = {}
+_CARRIED_KEEP: list = []
+
+
 class StmtMixin:
     # ------------------------------------------------------------ statements
     def exec_block(self, stmts, fr: Frame):
@@ -304,15 +308,19 @@ class StmtMixin:
         site = f"{fr.module.rel}:{st.lineno}"
         elem, over = self.sym_elem(it, site)
         # loop-carried variables: stored and loaded inside the body
-        stored, loaded = set(), set()
-        for n in ast.walk(ast.Module(body=st.body, type_ignores=[])):
-            if isinstance(n, ast.Name):
-                (stored if isinstance(n.ctx, ast.Store) else loaded).add(n.id)
-            elif isinstance(n, ast.AugAssign) and isinstance(n.target, ast.Name):
-                stored.add(n.target.id)
-                loaded.add(n.target.id)
-        tnames = {n.id for n in ast.walk(st.target) if isinstance(n, ast.Name)}
-        carried = sorted((stored & loaded) - tnames)
+        carried = _CARRIED.get(id(st))
+        if carried is None:
+            stored, loaded = set(), set()
+            for n in ast.walk(ast.Module(body=st.body, type_ignores=[])):
+                if isinstance(n, ast.Name):
+                    (stored if isinstance(n.ctx, ast.Store) else loaded).add(n.id)
+                elif isinstance(n, ast.AugAssign) and isinstance(n.target, ast.Name):
+                    stored.add(n.target.id)
+                    loaded.add(n.target.id)
+            tnames = {n.id for n in ast.walk(st.target) if isinstance(n, ast.Name)}
+            carried = sorted((stored & loaded) - tnames)
+            _CARRIED[id(st)] = carried
+            _CARRIED_KEEP.append(st)
         holes = {}
         for name in carried:
             cur = fr.lookup(name)
@@ -380,15 +388,16 @@ class StmtMixin:
                 continue
             first = next(i for i, x in enumerate(lst.items) if id(x) in ids)
             rest = [x for x in lst.items if id(x) not in ids]
-            rep = Rep(kept, over, elem)
+            fronts = [1 for l2, it2, pos in rec["log"] if l2 is lst and pos == "front"]
+            rep = Rep(kept, f"reversed({over})" if fronts else over, elem)
             lst.items[:] = rest[:first] + [rep] + rest[first:]
             # propagate to outer recorders
             for outer in self.recorders:
                 outer["log"].append((lst, rep, None))
 
-    def log_append(self, lst, item):
+    def log_append(self, lst, item, front=False):
         for rec in self.recorders:
-            rec["log"].append((lst, item, None))
+            rec["log"].append((lst, item, "front" if front else None))
 
     # ----------------------------------------------------------- expressions
     def ev(self, node, fr: Frame) -> V:
